@@ -32,7 +32,8 @@ func TestMain(m *testing.M) {
 	rec.Rule("cases = lists of declarations in one of two states. parsed: every non-generic file of a seed-dependent corpus sample (Go 1.23 standard library + /repo, standard parser, comments dropped) and rapid-generated syntactic trees (astx) turned into parsed Go by standard-printer + standard-parser; " +
 		"built: the same declarations after fast.Comp.MacroExpandNodeCodewalk, i.e. in the form the interpreter's macro machinery hands to the printer (parentheses and trivial blocks removed). " +
 		"Each case is printed through printer.Config.Fprint (whole file) and through base/output.Stringer (declaration by declaration, as WriteDeclsToStream does), reparsed with the standard parser, compared, printed again. " +
-		"A declaration is non-trivial when printing it needs parentheses or layout decisions: it contains a ParenExpr, a function literal, a binary expression nested >= 3 deep, a composite literal inside an if/for/switch header, or a struct tag; distinct = distinct (file, declaration, state) or distinct generated source text")
+		"plus source texts assembled from templates that put literals of every kind with hostile content (raw TAB and other control bytes, backquoted strings with tabs/newlines, escapes, every number base, imaginary) into alignment-sensitive positions (const/var blocks, struct fields with tags, multi-line composite literals, consecutive statements, with and without trailing comments). " +
+		"A declaration is non-trivial when printing it needs parentheses or layout decisions: it contains a ParenExpr, a function literal, a binary expression nested >= 3 deep, a composite literal inside an if/for/switch header, a struct tag, or a literal holding a control byte; distinct = distinct (file, declaration, state) or distinct generated source text")
 	rec.Assume("reader of printed text: go/parser of Go 1.23.5 (the property's observation point); comparator: astx.Equal(Structural) after removing ParenExpr (parsed state) or after astx.Norm (built state: `else {s}`/`else s` and trivial blocks are the same tree for the interpreter)")
 	rec.Assume("explicit empty statements are masked on both sides (go/printer deliberately does not print them, golang issue 3466); comments are dropped before printing (go/printer's comment placement is not idempotent in the standard library either)")
 	rec.Assume("harness module built with godebug default=go1.18 (gomacro's own module setting)")
@@ -271,11 +272,12 @@ func sameUnary(op token.Token) bool {
 
 // reparen puts back, in a tree built by the macro-expansion walk, the parentheses whose
 // loss is recorded as known findings, and counts them. What it repairs is exactly:
-//   F-C25-1  composite literal with a type name, not enclosed in brackets, in an if/for/range/switch header
-//   F-C25-2  channel type used as conversion function; `<-chan T` as element of a bidirectional or send channel type;
-//            slice/array/map type ending in a result-less function type used as conversion function (`[]func()(x)`);
-//            unary + - & applied to the same unary operator; pointer indirection `*` applied to a binary expression
-//   F-C25-3  (in checkFile) the first print of a built tree is not a formatting fixed point
+//
+//	F-C25-1  composite literal with a type name, not enclosed in brackets, in an if/for/range/switch header
+//	F-C25-2  channel type used as conversion function; `<-chan T` as element of a bidirectional or send channel type;
+//	         slice/array/map type ending in a result-less function type used as conversion function (`[]func()(x)`);
+//	         unary + - & applied to the same unary operator; pointer indirection `*` applied to a binary expression
+//	F-C25-3  (in checkFile) the first print of a built tree is not a formatting fixed point
 func reparen(n ast.Node) {
 	k1, k2 := known("F-C25-1"), known("F-C25-2")
 	if !k1 && !k2 {
@@ -525,6 +527,13 @@ func classify(d ast.Decl) (labels []string) {
 			if c.Tag != nil {
 				add("nt:struct-tag")
 			}
+		case *ast.BasicLit:
+			for i := 0; i < len(c.Value); i++ {
+				if b := c.Value[i]; b < 0x20 || b == 0x7f {
+					add("nt:literal-with-control-byte")
+					break
+				}
+			}
 		}
 		for _, slot := range headerSlots(c) {
 			found := false
@@ -550,6 +559,9 @@ func replay(content []byte) error {
 	strict = os.Getenv("C25_REPLAY_MASKED") == ""
 	defer func() { strict = false }()
 	err, _ := checkSource("replay.go", content, nil)
+	if err == nil {
+		err = checkWithComments("replay.go", content)
+	}
 	return err
 }
 
@@ -561,8 +573,11 @@ func TestCorpus(t *testing.T) {
 	if rec.ReplayOnly() {
 		return
 	}
-	files := astx.Sample(astx.CorpusFiles(), rec.Seed(), rec.Scale(16, 1))
+	// the sample plus, always, the corpus files with raw control bytes inside literals
+	hostile := astx.ControlByteLiteralFiles()
+	files := astx.Union(astx.Sample(astx.CorpusFiles(), rec.Seed(), rec.Scale(16, 1)), hostile)
 	rec.Extra("corpus_files_selected", len(files))
+	rec.Extra("corpus_files_with_control_byte_literals", len(hostile))
 	for i, path := range files {
 		if !rec.Mine(i) {
 			continue
@@ -589,6 +604,10 @@ func TestCorpus(t *testing.T) {
 		})
 		if skip != "" {
 			rec.Label(skip)
+		}
+		if err == nil && skip == "" && astx.HasControlByteLiteral(src) {
+			rec.Label("corpus-control-byte-literal-file-checked")
+			err = checkWithComments(path, src)
 		}
 		if err != nil {
 			rec.Violation("corpus", src, "go", "%v", err)
@@ -635,6 +654,158 @@ func TestGenerated(t *testing.T) {
 		}
 		if err != nil {
 			rec.Failf(t, "generated", src, "go", "%v", err)
+		}
+	})
+}
+
+// ---------------------------------------------------------------- literals in alignment-sensitive positions
+
+var stressNames = []string{"a", "bb", "ccc", "dddddd", "eeeeeeeeeeee", "x1", "someLongerName", "_"}
+
+// literalStressSource assembles one source text: literals drawn from astx's hostile pool
+// placed where the printer aligns columns (tabwriter cells) or breaks lines.
+func literalStressSource(t *rapid.T) string {
+	kinds, texts := astx.HostileLiterals()
+	var strs []string
+	for i, k := range kinds {
+		if k == token.STRING {
+			strs = append(strs, texts[i])
+		}
+	}
+	lit := func() string { return rapid.SampledFrom(texts).Draw(t, "lit") }
+	str := func() string { return rapid.SampledFrom(strs).Draw(t, "strlit") }
+	name := func() string { return rapid.SampledFrom(stressNames[:7]).Draw(t, "name") }
+	comments := rapid.Bool().Draw(t, "comments")
+	cmt := func() string {
+		if comments && rapid.IntRange(0, 2).Draw(t, "cmt") == 0 {
+			return " // " + rapid.SampledFrom([]string{"c", "a longer trailing comment", "x\ty"}).Draw(t, "cmt-text")
+		}
+		return ""
+	}
+	var b strings.Builder
+	b.WriteString("package p\n\n")
+	for i, n := 0, rapid.IntRange(1, 4).Draw(t, "nblocks"); i < n; i++ {
+		rows := rapid.IntRange(1, 5).Draw(t, "rows")
+		switch rapid.IntRange(0, 6).Draw(t, "block") {
+		case 0:
+			b.WriteString(rapid.SampledFrom([]string{"const", "var"}).Draw(t, "kw") + " (\n")
+			for r := 0; r < rows; r++ {
+				switch rapid.IntRange(0, 2).Draw(t, "spec") {
+				case 0:
+					fmt.Fprintf(&b, "\t%s = %s%s\n", name(), lit(), cmt())
+				case 1:
+					fmt.Fprintf(&b, "\t%s T = f(%s, %s)%s\n", name(), lit(), lit(), cmt())
+				default:
+					fmt.Fprintf(&b, "\t%s, %s = %s, %s%s\n", name(), name(), lit(), lit(), cmt())
+				}
+			}
+			b.WriteString(")\n\n")
+		case 1:
+			b.WriteString("type S struct {\n")
+			for r := 0; r < rows; r++ {
+				fmt.Fprintf(&b, "\t%s %s %s%s\n", name(), rapid.SampledFrom([]string{"int", "map[string]T", "[4]byte"}).Draw(t, "ftype"), str(), cmt())
+			}
+			b.WriteString("}\n\n")
+		case 2:
+			b.WriteString("var m = map[interface{}]interface{}{\n")
+			for r := 0; r < rows; r++ {
+				fmt.Fprintf(&b, "\t%s: %s,%s\n", lit(), lit(), cmt())
+			}
+			b.WriteString("}\n\n")
+		case 3:
+			b.WriteString("var s = []interface{}{\n")
+			for r := 0; r < rows; r++ {
+				fmt.Fprintf(&b, "\t%s, %s,%s\n", lit(), lit(), cmt())
+			}
+			b.WriteString("}\n\n")
+		case 4:
+			b.WriteString("func f() {\n")
+			for r := 0; r < rows; r++ {
+				switch rapid.IntRange(0, 3).Draw(t, "stmt") {
+				case 0:
+					fmt.Fprintf(&b, "\t%s := %s%s\n", name(), lit(), cmt())
+				case 1:
+					fmt.Fprintf(&b, "\t%s = g(%s, %s)%s\n", name(), lit(), lit(), cmt())
+				case 2:
+					fmt.Fprintf(&b, "\th(%s,\n\t\t%s)%s\n", lit(), lit(), cmt())
+				default:
+					fmt.Fprintf(&b, "\tif x == %s {\n\t\treturn %s%s\n\t}\n", lit(), lit(), cmt())
+				}
+			}
+			b.WriteString("}\n\n")
+		case 5:
+			b.WriteString("func g() {\n\tswitch x {\n")
+			for r := 0; r < rows; r++ {
+				fmt.Fprintf(&b, "\tcase %s, %s:%s\n\t\ty = %s\n", lit(), lit(), cmt(), lit())
+			}
+			b.WriteString("\t}\n}\n\n")
+		default:
+			fmt.Fprintf(&b, "var %s = T{A: %s, B: %s, C: []U{{%s, %s}, {X: %s}}}%s\n\n", name(), lit(), lit(), lit(), lit(), lit(), cmt())
+		}
+	}
+	return b.String()
+}
+
+// checkWithComments: comments kept (they create tabwriter columns): the printed file
+// must parse back to the same declarations. No "same text again" demand here:
+// go/printer's comment placement is not idempotent in the standard library either.
+func checkWithComments(name string, src []byte) error {
+	efs := etoken.NewFileSet()
+	file, err := astx.ParseStdComments(&efs.FileSet, name, src)
+	if err != nil {
+		return nil
+	}
+	for _, cfg := range []printer.Config{config, {Tabwidth: 8}} {
+		cfg := cfg
+		p1, err := tryPrint(func() (string, error) {
+			var buf bytes.Buffer
+			err := cfg.Fprint(&buf, &efs.FileSet, file)
+			return buf.String(), err
+		})
+		if err != nil {
+			return fmt.Errorf("%s [parsed tree with comments, printer mode %d]: %v", name, cfg.Mode, err)
+		}
+		f2, err := astx.ParseStd(token.NewFileSet(), "printed.go", []byte(p1))
+		if err != nil {
+			return fmt.Errorf("%s [parsed tree with comments, printer mode %d]: printed text does not parse: %v\n--- printed text (excerpt) ---\n%s", name, cfg.Mode, err, excerpt(p1, err))
+		}
+		if len(f2.Decls) != len(file.Decls) {
+			return fmt.Errorf("%s [parsed tree with comments, printer mode %d]: %d declarations printed, %d parsed back", name, cfg.Mode, len(file.Decls), len(f2.Decls))
+		}
+		for i := range file.Decls {
+			if err := astx.Equal(normalise(f2.Decls[i], false), normalise(file.Decls[i], false), astx.Structural); err != nil {
+				return fmt.Errorf("%s [parsed tree with comments, printer mode %d]: declaration %d parses back to a different tree (reparsed vs original): %v", name, cfg.Mode, i, err)
+			}
+		}
+	}
+	return nil
+}
+
+func TestLiteralStress(t *testing.T) {
+	rec.Check(t, rec.Scale(1200, 10000), func(t *rapid.T) {
+		src := []byte(literalStressSource(t))
+		if _, err := astx.ParseStd(token.NewFileSet(), "lit.go", src); err != nil {
+			rec.Label("discarded:literal-stress-text-does-not-parse")
+			return
+		}
+		nt := false
+		err, _ := checkSource("literals.go", src, func(state string, idx int, d ast.Decl) {
+			rec.Label("case:literal-stress-" + state)
+			ls := classify(d)
+			for _, l := range ls {
+				rec.Label(l)
+			}
+			nt = nt || len(ls) > 0
+		})
+		if nt {
+			rec.NT(string(src))
+		}
+		if err == nil {
+			rec.Label("case:literal-stress-with-comments")
+			err = checkWithComments("literals.go", src)
+		}
+		if err != nil {
+			rec.Failf(t, "literal-stress", src, "go", "%v", err)
 		}
 	})
 }
